@@ -136,7 +136,9 @@ def run_case(ctx, st, rng, key, wrong_key, key_id):
         if flen >= 0:
             attrs.insert(rng.randrange(len(attrs) + 1), (E.T_BYTES, name, bytes(rng.randrange(256) for _ in range(flen)), 0))
     aad = b"ESXConfiguration" if s["aad"] else None
-    padding = rng.choice([None, None, (-n) % 4096 + 4096]) if n < (1 << 20) else None
+    # padding: up to the block boundary (what ESXi writes), a block more, or any other amount (the encrypted section then does
+    # not end on a block boundary - "every payload length, padding")
+    padding = rng.choice([None, None, (-n) % 4096 + 4096, 0, 1, 16, rng.randrange(0, 4096), rng.randrange(0, 9000)]) if n < (1 << 20) else rng.choice([None, 0, 7])
     blob, info = E.seal(payload, key, iv, attrs, aad=aad, padding=padding)
     blob = tamper(blob, info, s["tamper"], rng, attrs)
     gaad = {"same": aad, "none": None, "other": b"SomethingElse"}[g["aad"]]
@@ -184,7 +186,7 @@ def cli_cases(ctx, rng, key_text, key, key_id):
             # vmware.keyInfo is a free-form string attribute: the tool decrypts with the keystore's key whatever its spelling
             kinfo = [key_id, key_id.upper(), "{" + key_id + "}", key_id.replace("-", ""), "urn:uuid:" + key_id, "some label ✓"][i % 6]
             attrs = E.std_attrs(key, iv, kinfo, extra=rng.sample(EXTRA_POOL, 2))
-            blob, info = E.seal(payload, key, iv, attrs, aad=aad)
+            blob, info = E.seal(payload, key, iv, attrs, aad=aad, padding=rng.choice([None, None, 0, 5, rng.randrange(0, 5000)]))
             if bad:
                 blob = tamper(blob, info, bad, rng, attrs)
             ep, kp, op = (os.path.join(work, f"{i}.{x}") for x in ("ve", "info", "out"))
